@@ -25,6 +25,8 @@ EXTRA = ["Title: a \"q\" & <1>\nAuthor: x's <2>\nKey & <3>: v\ncss: a\"b.css\n\n
          # image addresses whose reserved characters come AFTER the last dot (query strings): every place a package derives something from the address
          "![c](img/chart.png?rev=3&size=large) ![d](http://x.y/render.cgi?a=1&b=<2>) ![e](pic.v1.p&g) ![f](a.b<c)\n\n![g][r]\n\n[r]: img/r.jpeg?x=1&y=2 \"T & t\"\n",
          "Title: T & \"1\"\nBase Header Level: 2\nLanguage: de\nAuthor: A & B\nDate: 2020 <x>\nKeywords: a, b & c\nCopyright: (c) & <y>\nuuid: 1&2\n\n# Caf\u00e0\n\ntext\u00e0\n"] + \
+        [# headings whose text yields no label at all (nothing but punctuation / reserved characters), an empty manual label, between ordinary ones and nested: every navigation structure built from headings
+         "# ??? #\n\ntext\n\n## & ##\n\nmore\n\n## <> ##\n\n### \"!?\" ###\n\n# Next #\n\n\"!\"\n=====\n\n## Title [] ##\n\nend\n", "{{TOC}}\n\n# !!! #\n\n## ... ##\n\n# & #\n\n!?\n---\n\ntext\n"] + \
         ["Title: L\n%s: %d\n\npre\n\n# One\n\n## Two\n\ntext\n\n### Three\n\n# Four\n\nend\n" % (k, v) for k in ("Base Header Level", "ODF Header Level", "HTML Header Level", "EPUB Header Level") for v in (-3, -1, 0, 1, 4, 9)]
 
 
